@@ -176,6 +176,8 @@ func init() {
 		ID: "C11",
 		Harnesses: []HarnessSpec{
 			{Dir: "merkleblock", Name: "ZZ_C11_build", Variant: "n<=5", Reach: []string{"end"}, Tweak: merkleCfg("maxn", 5)},
+			{Dir: "merkleblock", Name: "ZZ_C11_build", Variant: "n=6..65,structured subsets,concrete ids", Reach: []string{"end"}, Tweak: merkleCfg("minn", 6, "maxn", 65, "structured", 1, "concretehashes", 1)},
+			{Dir: "merkleblock", Name: "ZZ_C11_build", Variant: "n=256..257,structured subsets,concrete ids", Tiers: "thorough", Reach: []string{"end"}, Tweak: merkleCfg("minn", 256, "maxn", 257, "structured", 1, "concretehashes", 1)},
 			{Dir: "merkleblock", Name: "ZZ_C11_build", Variant: "n=6..9", Tiers: "thorough", Reach: []string{"end"}, Tweak: merkleCfg("minn", 6, "maxn", 9)},
 		},
 	})
@@ -205,6 +207,7 @@ func init() {
 			// (cannot be proved unsat in reasonable time, but a wrong routine has abundant witnesses)
 			{Dir: "gcs", Name: "ZZ_C14_fastreduction", Variant: "exact-witness", AfterSat: "ZZ_C14_fastreduction", Tweak: func(c *sym.HarnessCfg, tier string) { c.TimeoutMs = 120000 }},
 			{Dir: "gcs", Name: "ZZ_C14_encoding", Variant: "n<=2", Reach: []string{"end"}, Tweak: gcsCfg("maxn", 2)},
+			{Dir: "gcs", Name: "ZZ_C14_encoding", Variant: "n=1,P=0,unary runs<=70", Reach: []string{"end"}, Tweak: gcsCfg("maxn", 1, "onlyp", 0, "maxq", 70)},
 			{Dir: "gcs", Name: "ZZ_C14_serialise", Variant: "bytes<=3", Reach: []string{"end", "rejected"}, Tweak: params(false, "maxbytes", 3)},
 			{Dir: "gcs", Name: "ZZ_C14_encoding", Variant: "n<=3,allP", Tiers: "thorough", Reach: []string{"end"}, Tweak: gcsCfg("maxn", 3, "allp", 1)},
 			{Dir: "gcs", Name: "ZZ_C14_serialise", Variant: "bytes<=8", Tiers: "thorough", Reach: []string{"end"}, Tweak: params(false, "maxbytes", 8)},
